@@ -5,9 +5,12 @@ import Log4rsModel.Rolling.BufWriter
   build : create_dir_all(parent); OpenOptions.write(true).append(a).truncate(!a).create(true).open
           ⇒ Mutex<SimpleWriter<BufWriter::with_capacity(1024, file)>>
   append: let mut file = self.file.lock();          -- guard lives to the end of the function
-          self.encoder.encode(&mut *file, record)?; -- the encoder calls write_all slice by slice
+          let mut buf = Vec::new();
+          self.encoder.encode(&mut SimpleWriter(&mut buf), record)?;   -- into memory (fix 9f38f0b)
+          file.write_all(&buf)?;                    -- ONE slice: the whole encoded record
           file.flush()?;
           Ok(())
+  (before 9f38f0b the encoder wrote into the BufWriter slice by slice: `encodeUnfixed`)
 
 A record is modelled by the list of slices its encoder hands to `write_all` (`Rec`), so that every
 chunking of the same bytes is a different input. Encoder failures and I/O errors of the
@@ -45,8 +48,13 @@ namespace FileAppender
 /-- `FileAppenderBuilder::build` -/
 def build (m : OpenMode) (pre : Option Bytes) : BufFile := { disk := openContent m pre, buf := [] }
 
-/-- `encoder.encode(&mut *file, record)` for a scripted encoder -/
-def encode (w : BufFile) (r : Rec) : BufFile := r.foldl BufFile.writeAll w
+/-- the code before 9f38f0b: `encoder.encode(&mut *file, record)` wrote into the BufWriter slice by
+slice (kept for the negative witness theorems) -/
+def encodeUnfixed (w : BufFile) (r : Rec) : BufFile := r.foldl BufFile.writeAll w
+
+/-- encode into memory, then `file.write_all(&buf)`: the BufWriter sees one slice, whatever the
+encoder's chunking -/
+def encode (w : BufFile) (r : Rec) : BufFile := w.writeAll (encBytes r)
 
 /-- `FileAppender::append` (the body under the guard) -/
 def append (w : BufFile) (r : Rec) : BufFile := (encode w r).flush
@@ -78,11 +86,11 @@ verified). So with a second `FileAppender` on the same path, or a foreign proces
 file is the plain concatenation of all writes in the order they happen. (In truncate mode the
 handle has its own offset; histories with more than one handle are not modelled there.)
 
-`append` with a failing encoder: `self.encoder.encode(&mut *file, record)?` returns early — the
-slices written before the error stay in the `BufWriter` (or are already on disk if they spilled)
-and nothing flushes or discards them: they reach the file in front of the next record of that
-appender, or when the appender is dropped. This is the code as it is (finding
-`C04/seq-encoder-error-torn`). -/
+`append` with a failing encoder: the record is encoded into memory first, so `?` leaves `append`
+before anything reaches the BufWriter — nothing is written, the appender stays usable. Before the
+`fix:` commit 9f38f0b the encoder wrote into the BufWriter directly and the slices written before
+the error stayed there (former finding `C04/seq-encoder-error-torn`); `applyOp` with
+`tearing := true` is that historical behaviour, kept for the `…_unfixed` witness. -/
 
 /-- one shared file, one pending buffer per live appender -/
 structure Handles where
@@ -110,9 +118,11 @@ def store (s : Handles) (k : Nat) (w : BufFile) : Handles := { file := w.disk, b
 
 def init (m : OpenMode) (pre : Option Bytes) : Handles := { file := openContent m pre, bufs := [[]] }
 
-def applyOp (m : OpenMode) (s : Handles) : MOp → Handles
+def applyOp (m : OpenMode) (s : Handles) (op : MOp) (tearing : Bool := false) : Handles :=
+  match op with
   | .append k r none => if k < s.bufs.length then s.store k (FileAppender.append (s.view k) r) else s
-  | .append k r (some n) => if k < s.bufs.length then s.store k (FileAppender.encode (s.view k) (r.take n)) else s
+  | .append k r (some n) =>
+    if tearing ∧ k < s.bufs.length then s.store k (FileAppender.encodeUnfixed (s.view k) (r.take n)) else s
   | .foreign x => { s with file := s.file ++ x }
   | .build => { file := openContent m (some s.file), bufs := s.bufs ++ [[]] }
   | .restart k =>
@@ -125,6 +135,11 @@ def trace (m : OpenMode) (s : Handles) : List MOp → List Bytes
   | [] => []
   | op :: ops => (applyOp m s op).file :: trace m (applyOp m s op) ops
 
+/-- the same with the historical behaviour on encoder errors -/
+def traceUnfixed (m : OpenMode) (s : Handles) : List MOp → List Bytes
+  | [] => []
+  | op :: ops => (applyOp m s op true).file :: traceUnfixed m (applyOp m s op true) ops
+
 end Handles
 
 /-- appender indices of a history refer to appenders that exist (`n` = how many exist) -/
@@ -135,7 +150,8 @@ def validOps : Nat → List MOp → Bool
   | n, .build :: ops => validOps (n + 1) ops
   | n, .restart k :: ops => decide (k < n) && validOps n ops
 
-/-- the encoder of this operation fails after having written something -/
+/-- the encoder of this operation fails after having produced something (before 9f38f0b that
+prefix reached the BufWriter) -/
 def MOp.torn : MOp → Bool
   | .append _ r (some n) => !(r.take n).flatten.isEmpty
   | _ => false
@@ -152,7 +168,7 @@ def MOp.multi : MOp → Bool
 /-- where a thread is inside `append` -/
 inductive Pc where
   | idle                                         -- outside `append`, not holding the lock
-  | writing (r : Rec) (done rest : List Bytes)   -- holds the lock; `done` slices written, `rest` to go
+  | writing (r : Rec) (done rest : List Bytes)   -- holds the lock; `done` slices written, `rest` to go (one slice: the whole record)
   | flushed (r : Rec)                            -- `flush` returned; `Ok(())` about to be returned, guard not yet dropped
   deriving Repr, DecidableEq
 
@@ -183,7 +199,7 @@ def stepThread (i : Nat) (s : CState) : Option CState :=
     | .idle =>
       match t.todo, s.holder with
       | r :: _, none =>
-        some { s with holder := some i, threads := s.threads.set i { t with pc := .writing r [] r } }
+        some { s with holder := some i, threads := s.threads.set i { t with pc := .writing r [] [encBytes r] } }
       | _, _ => none
     | .writing r dn (c :: cs) =>
       some { s with w := s.w.writeAll c, threads := s.threads.set i { t with pc := .writing r (dn ++ [c]) cs } }
